@@ -149,7 +149,12 @@ class Ctx:
         u = self.sanitized(lines, tag)
         if u is None:
             return
-        bad = [i for i in range(len(lines)) if u[i] != a[i]]
+        def cn(line, ans):
+            # NaN sign / payload may differ between the two builds (constant folding): compare NaNs as NaNs
+            w = line.split()
+            wd = 32 if (w[0] in ("sf", "p2r3f", "p2r4f", "r2p3f", "r2p4f") or (len(w) > 1 and w[1] == "f")) else 64
+            return [canon(t, wd) if len(t) == wd // 4 else t for t in ans.split()]
+        bad = [i for i in range(len(lines)) if u[i] != a[i] and cn(lines[i], u[i]) != cn(lines[i], a[i])]
         name = "ubsan:%s: the sanitised build answers all %d lines like the plain build (no undefined behaviour)" % (tag, len(lines))
         self.chk.oblige(name, "correspondence", not bad)
         self.chk.count(len(lines), len(lines))
